@@ -836,3 +836,75 @@ Proof.
 Qed.
 
 End Run.
+
+(* ------------------------------------------------------------------------------------------------ *)
+(** * Consequences: the verdict does not depend on the iteration orders; the two extracted
+      instantiations are admissible *)
+
+Definition admissible (enumL : list N -> list N -> list N) (pickB : list N -> N -> list N -> N) : Prop :=
+  (forall C l, NoDup (enumL C l) /\ forall x, In x (enumL C l) <-> In x l) /\
+  (forall C a B, B <> [] -> In (pickB C a B) B).
+
+Definition profile_on (alts : list N) (p : list (list N)) : Prop :=
+  NoDup alts /\ alts <> [] /\ p <> [] /\ forall v, In v p -> Permutation alts v.
+
+Theorem trick_decides alts p enumL pickB :
+  profile_on alts p -> admissible enumL pickB ->
+  exists E, trick enumL pickB alts p = Ok (spt_decide alts p, E) /\
+            (spt_decide alts p = true -> spt_check alts p E = true).
+Proof.
+  intros (Hnd & Hne & Hpne & Hp) [He Hk].
+  destruct (trick_exact alts p Hnd Hp enumL pickB He Hk Hpne Hne) as (b & E & Et & Hb & Hc).
+  assert (Eb : b = spt_decide alts p).
+  { apply bool_eq_iff. rewrite Hb. symmetry. apply spt_decide_correct. exact Hnd. }
+  subst b. exists E. split; assumption.
+Qed.
+
+Theorem trick_choice_independent alts p enumL pickB enumL' pickB' :
+  profile_on alts p -> admissible enumL pickB -> admissible enumL' pickB' ->
+  exists b E E', trick enumL pickB alts p = Ok (b, E) /\ trick enumL' pickB' alts p = Ok (b, E').
+Proof.
+  intros Hpo H1 H2.
+  destruct (trick_decides alts p enumL pickB Hpo H1) as (E & HE & _).
+  destruct (trick_decides alts p enumL' pickB' Hpo H2) as (E' & HE' & _).
+  eexists _, E, E'. split; eassumption.
+Qed.
+
+Lemma dedup_in l x : In x (dedup l) <-> In x l.
+Proof.
+  induction l as [|y l IH]; cbn [dedup]; [tauto|].
+  destruct (memb y l) eqn:Em.
+  - apply memb_iff in Em. rewrite IH. split; [right; assumption|]. intros [<-|H]; assumption.
+  - cbn [In]. rewrite IH. tauto.
+Qed.
+
+Lemma dedup_nodup l : NoDup (dedup l).
+Proof.
+  induction l as [|y l IH]; cbn [dedup]; [constructor|].
+  destruct (memb y l) eqn:Em; [exact IH|]. constructor; [|exact IH].
+  rewrite dedup_in. intros H. apply memb_iff in H. congruence.
+Qed.
+
+Lemma admissible_fwd : admissible enum_fwd pick_first.
+Proof.
+  split.
+  - intros C l. split; [apply dedup_nodup|apply dedup_in].
+  - intros C a [|b B] H; [contradiction|]. left; reflexivity.
+Qed.
+
+Lemma admissible_bwd : admissible enum_bwd pick_last.
+Proof.
+  split.
+  - intros C l. unfold enum_bwd. split.
+    + apply NoDup_rev. apply dedup_nodup.
+    + intros x. rewrite <- in_rev. apply dedup_in.
+  - intros C a [|b B] H; [contradiction|]. unfold pick_last. rewrite last_cons_default. apply last_in.
+Qed.
+
+Theorem trick_fwd_decides alts p : profile_on alts p ->
+  exists E, trick_fwd alts p = Ok (spt_decide alts p, E) /\ (spt_decide alts p = true -> spt_check alts p E = true).
+Proof. intros H. apply trick_decides; [exact H|apply admissible_fwd]. Qed.
+
+Theorem trick_bwd_decides alts p : profile_on alts p ->
+  exists E, trick_bwd alts p = Ok (spt_decide alts p, E) /\ (spt_decide alts p = true -> spt_check alts p E = true).
+Proof. intros H. apply trick_decides; [exact H|apply admissible_bwd]. Qed.
